@@ -173,6 +173,21 @@ func (u *upgA) chainRule(rule string, guards []string, extras bool) {
 						n, isS := k.Args[1].StrVal()
 						good = isS && textproto.CanonicalMIMEHeaderKey(n) == "Sec-Websocket-Key"
 					}
+					// or the first element of r.Header["Sec-Websocket-Key"] (the key is in canonical form), taken under len > 0
+					if sv, isS := k.StrVal(); !good && isS && sv == "" {
+						good = true // the header is absent: what Get returns
+					}
+					if !good {
+						kk := strip(k)
+						if kk.Kind == core.KLoad && kk.Args[0].Kind == core.KIndexAddr {
+							lk, idx := kk.Args[0].Args[0], kk.Args[0].Args[1]
+							if z, isC := idx.Int64(); isC && z == 0 && lk.Kind == core.KLookup && isRequestHeader(lk.Args[0]) {
+								if n, isS := lk.Args[1].StrVal(); isS && n == "Sec-Websocket-Key" {
+									good = true
+								}
+							}
+						}
+					}
 					if !good {
 						missing["challenge-key"] = "the value validated by isValidChallengeKey is not r.Header.Get(\"Sec-Websocket-Key\")"
 					}
